@@ -56,11 +56,14 @@ Fixpoint eval (env : denv) (s : store) (e : dexpr) : option bool :=
   | DUnknown _ => None
   end.
 
-Fixpoint pick_case (v : string) (cases : list (list string * list dstmt)) : list dstmt :=
+(* a clause without labels is `default:` — chosen, wherever it stands, when no label matches *)
+Fixpoint pick_case_d (v : string) (cases : list (list string * list dstmt)) (dflt : list dstmt) : list dstmt :=
   match cases with
-  | [] => []
-  | (labels, body) :: t => if existsb (String.eqb v) labels then body else pick_case v t
+  | [] => dflt
+  | ([], body) :: t => pick_case_d v t body
+  | (labels, body) :: t => if existsb (String.eqb v) labels then body else pick_case_d v t dflt
   end.
+Definition pick_case (v : string) (cases : list (list string * list dstmt)) : list dstmt := pick_case_d v cases [].
 
 (* the iterations of a range loop: [body] runs the loop body from a store; a return (or getting
    stuck) inside the body ends the loop *)
